@@ -226,6 +226,27 @@ func Atoms() []Atom {
 
 func mc(p int) Formula { return Atom{Path: P(p), Kind: "minCount", N: 1} }
 
+// FamilyBoundaries: count and length constraints whose bound is zero (always or almost always
+// satisfied: an implementation may be tempted to skip them), alone in their validation and as the
+// whole body of a quantified / nested validation.
+func FamilyBoundaries() []Program {
+	var out []Program
+	for _, a := range []Atom{
+		{Path: P(0), Kind: "minCount", N: 0}, {Path: P(0), Kind: "minLength", N: 0}, {Path: P(0), Kind: "maxLength", N: 0},
+		{Path: P(0), Kind: "exactLength", N: 0}, {Path: P(0), Kind: "exactCount", N: 0}, {Path: P(0), Kind: "minInclusive", N: 0}, {Path: P(0), Kind: "maxExclusive", N: 0},
+	} {
+		inner := a
+		inner.Path = P(1)
+		out = append(out,
+			one("v", And{[]Formula{a}}),
+			one("v", Nested{P(0), And{[]Formula{inner}}}),
+			one("v", Quant{P(0), true, 0, And{[]Formula{inner}}}),
+			one("v", Quant{P(0), false, 0, And{[]Formula{inner}}}),
+		)
+	}
+	return out
+}
+
 // FamilyAtoms: every documented atom alone, under not, as operand of or and as the
 // condition / consequence of if-then.
 func FamilyAtoms(thorough bool) []Program {
